@@ -388,11 +388,30 @@ PROPS = {
     "C07": {
         "parts": [
             {"engine": "clonersim", "cfgs": ["", "nowire"], "share": 1, "chunk": 3000},
+            {"engine": "sysim", "cfgs": ["", "", "sequential"], "share": 2, "chunk": 300},
         ],
+        "det_trace": False,
         "quick": {"seconds": 30, "chunk": 3000, "runs": 200000},
         "thorough": {"seconds": 900, "chunk": 10000},
-        "rule": "TODO",
-        "assumptions": [],
-        "components": {"real": [], "stub": [], "sim": REAL_COMMON},
+        "rule": ("clonersim part: one run = 4-40 operations over a set of live messages with the production cloner: create a message "
+                 "(A, AAAA, CNAME, MX, PTR, SRV, TXT, NS, SOA, HTTPS with alpn/no-default-alpn/port/ipv4hint 1-8/ech/ipv6hint/dohpath, "
+                 "OPT with cookie/EDE/subnet/NSID), half of them round-tripped through the wire as an upstream reply is; clone a live "
+                 "message; dispose a clone or a wire message; overwrite a live message in place; after every operation every live "
+                 "message must equal its snapshot.  sysim part: one run = 1-6 concurrent client streams x 3-16 requests (anonymous or "
+                 "one of 3 profiles with different blocking modes and filtered TTLs; allowed, request-blocked, response-blocked, "
+                 "rewritten, shared cacheable and unique names; A/AAAA/HTTPS/TXT; CHAOS debug queries) through one full stack with the "
+                 "production cloner as cloner and disposer and the ECS cache, the upstream holding requests for 0-50ms of simulated "
+                 "time and answering with wire-unpacked messages; every response is compared with the same request served alone in a "
+                 "freshly built stack; every run non-trivial; distinct = distinct decision hash"),
+        "assumptions": [
+            "in the sysim part the interleaving of the streams is produced by simulated upstream delays and the Go scheduler; every random choice is private to a stream, so decisions replay while goroutine order may differ",
+            "TTLs of resolved answers may be smaller than in the reference (aged in the cache), never larger; filtered answers must carry the requester's own TTL",
+            "request IDs and elapsed times inside CHAOS debug records are not compared",
+        ],
+        "components": {
+            "real": ["internal/dnsmsg Cloner (message, HTTPS/SVCB, OPT cloners, Dispose)", "dnssvc.NewHandlers stack with pooled request and filtering contexts, ecscache, real profiledb and device finder (sysim part)"],
+            "stub": ["filter (verdict by name prefix, builds rewritten answers with the requester's constructor)", "upstream (answers from the wire, random simulated delay)", "transports (requests injected, response released to the cloner after write as the plain-DNS servers do)"],
+            "sim": "clock: testing/synctest; private generators per stream",
+        },
     },
 }
